@@ -35,14 +35,15 @@ def build_items(tier, seed, facts=False, cases=('lower', 'lower', 'upper', 'mixe
     return items
 
 
-def run(pid, tier, replay_path, facts, rule, model, assumptions, module='OalTrace', mods=('OalSyntax', 'OalTrace', 'TraceBase')):
+def run(pid, tier, replay_path, facts, rule, model, assumptions, module='OalTrace', mods=('OalSyntax', 'OalTrace', 'TraceBase'),
+        consts=''):
     t = common.Timer()
     rep = evidence.Report(pid)
     seed = common.seed()
     items = [common.read_json(replay_path)['item']] if replay_path else build_items(tier, seed, facts)
     runs = [{'items': items[i:i + 6]} for i in range(0, len(items), 6)]
     traces = replay.replay('prebuildgen', {'schema': oalgen.OAL_SCHEMA}, runs, timeout=3000)
-    verdicts, st = trace.validate(module, '', traces, modules=list(mods))
+    verdicts, st = trace.validate(module, consts, traces, modules=list(mods))
     accepted = 0
     homes = {}
     distinct = set()
